@@ -29,3 +29,33 @@ Theorem C06_counts_all : forall k ops, history_ok k ops = true ->
             length l = length (cs_of k ops).
 Proof. exact counts_all. Qed.
 Print Assumptions C06_counts_all.
+
+(* the regenerated Delete / Insert (Gen/MutGen.v, the heap-passing translation of trees.go / collation.go) keep t.size as
+   the model does: Delete subtracts 1 exactly when it returns true; after Insert t.size is the model's counter *)
+From GoArt Require Import Model.Pool Model.PoolTree Proofs.PoolFacts Model.GoHeap Gen.MutGen Proofs.TranslateMutFacts.
+Theorem C06_regenerated_alpha_delete_size : forall h root ot F size keyS os pm,
+  repr_root h root ot F -> zero_pool pm -> isbytes (keyS ++ [0]) = true -> match ot with Some t => xfit t | None => True end ->
+  match g_alpha_delete (key_fuel (keyS ++ [0])) h root size keyS os (map_pool pm) with
+  | MDone _ _ size' _ _ ret => size' = if ret then (size - 1)%Z else size
+  | _ => True
+  end.
+Proof. exact gen_alpha_delete_size. Qed.
+Print Assumptions C06_regenerated_alpha_delete_size.
+Theorem C06_regenerated_collation_delete_size : forall h root ot F size keyS colKey os pm,
+  repr_root h root ot F -> zero_pool pm -> isbytes colKey = true -> match ot with Some t => xfit t | None => True end ->
+  match g_collation_delete (key_fuel colKey) h root size keyS colKey os (map_pool pm) with
+  | MDone _ _ size' _ _ ret => size' = if ret then (size - 1)%Z else size
+  | _ => True
+  end.
+Proof. exact gen_collation_delete_size. Qed.
+Print Assumptions C06_regenerated_collation_delete_size.
+Theorem C06_regenerated_alpha_insert_size : forall h root ot F size keyS val os pm,
+  repr_root h root ot F -> hwf h -> zero_pool pm -> isbytes (keyS ++ [0]) = true ->
+  N.of_nat (length (keyS ++ [0])) < M32 ->
+  match ot with Some t => WF 0 (tabs t) /\ xfit32 t | None => True end ->
+  match g_alpha_insert (key_fuel (keyS ++ [0])) h root size keyS val os (map_pool pm) with
+  | MDone _ _ size' _ _ _ => size' = xsize (fst (fst (xdo_insert (mkXstate ot size) (keyS ++ [0]) (keyS ++ [0]) val os pm)))
+  | _ => True
+  end.
+Proof. exact gen_alpha_insert_size. Qed.
+Print Assumptions C06_regenerated_alpha_insert_size.
